@@ -425,3 +425,235 @@ def replay(check, path):
     elif 'broken' in rp:
         print('no failing input was found; the broken obligations / correspondences are listed above')
     return 0
+
+
+# ------------------------------------------------------------------ model vs implementation
+IMPORTS = 'From SpyneV Require Import C10.Corr.\n'
+
+def coq_class_table():
+    from translate import pipeline
+    return dict(('%s.%s' % (m, q), c) for m, q, c in pipeline.CLASS_NAMES)
+
+
+def g_exc(names, table):
+    """the Coq constructor of an exception given the qualified names of its MRO"""
+    if isinstance(names, str):
+        names = [names]
+    for n in names:
+        n = n.replace('lxml.etree.XMLSyntaxError', 'lxml.etree.XMLSyntaxError')
+        if n in table:
+            return table[n]
+    return 'EException'
+
+
+def g_outcome(obs, term, table):
+    if obs.kind == 'ok':
+        if len(obs.called) != 1:
+            return None
+        return '(Called %d%%nat)' % term.method_cls[obs.called[0]]
+    if obs.kind == 'fault':
+        return '(Answered %s %s)' % (g_exc(obs.fcls, table), gtext(obs.code or ''))
+    return '(Escaped %s [])' % g_exc(obs.mro or [], table)
+
+
+def lib_parse_xml(prot, body, soap):
+    """what the parser library does with the bytes, with the protocol's own parser settings"""
+    from lxml import etree
+    parser = etree.XMLParser(**prot.parser_kwargs)
+    try:
+        if soap:
+            root, ids = etree.XMLID(body, parser)
+        else:
+            root = etree.fromstring(body, parser=parser)
+        return root, None
+    except Exception as e:
+        return None, ['%s.%s' % (c.__module__, c.__qualname__) for c in type(e).__mro__]
+
+
+def soap_body_elt(root, ns):
+    if not isinstance(root.tag, str) or root.tag != '{%s}Envelope' % ns:
+        return None
+    bodies = [c for c in root if isinstance(c.tag, str) and c.tag == '{%s}Body' % ns]
+    if not bodies:
+        return None
+    for c in bodies[0]:
+        if isinstance(c.tag, str):
+            return c
+    return None
+
+
+def xml_case(sv, term, table, proto, validator, body):
+    """-> (coq case text, description) or None when the request is outside the modelled universe"""
+    app = sv.app('model', proto, validator)
+    prot = app.in_protocol
+    soap = proto != 'xml'
+    root, exc = lib_parse_xml(prot, body, soap)
+    if root is None:
+        first = '(LibRaise %s)' % g_exc(exc, table)
+        LIB_SEEN.append((proto, g_exc(exc, table), exc[0], body))
+        verdict = None
+    else:
+        if soap and U.has_ids(root):
+            return None
+        try:
+            first = '(LibOk %s)' % U.g_xnode(root)
+        except U.Unmodelled:
+            return None
+        if len(first) > 60000:
+            return None
+        verdict = None
+        if validator == 'lxml':
+            elt = root if not soap else soap_body_elt(root, G.S11 if proto == 'soap11' else G.S12)
+            if elt is not None:
+                try:
+                    verdict = bool(prot.validation_schema.validate(elt))
+                except Exception:
+                    verdict = False
+    obs = D.drive_server(sv, 'model', proto, validator, body)
+    exp = g_outcome(obs, term, table)
+    if exp is None:
+        return None
+    soft = gbool(validator == 'soft')
+    sch = gopt(verdict, gbool)
+    if not soap:
+        t = '(KXml %s (mkxreq %s (LibRaise EException) %s) %s)' % (soft, first, sch, exp)
+    else:
+        t = '(KSoap %s %s (mksreq None %s (LibRaise EException) %s) %s)' % (
+            'NS_SOAP11' if proto == 'soap11' else 'NS_SOAP12', soft, first, sch, exp)
+    return t, '%s validator=%s %r -> %s' % (proto, validator, body[:200], obs.short())
+
+
+def lib_parse_dict(prot, proto, body):
+    """-> (doc, None, None) | (None, decode exception, None) | (None, None, load exception)"""
+    def names(e):
+        return ['%s.%s' % (c.__module__, c.__qualname__) for c in type(e).__mro__]
+    try:
+        if proto == 'json':
+            import json as _json
+            return _json.loads(body), None, None
+        if proto == 'yaml':
+            import yaml
+            try:
+                s = body.decode('UTF-8')
+            except Exception as e:
+                return None, names(e), None
+            return yaml.load(s, **prot.in_kwargs), None, None
+        import msgpack
+        return msgpack.unpackb(body), None, None
+    except Exception as e:
+        return None, None, names(e)
+
+
+def dict_case(sv, term, table, proto, validator, body):
+    app = sv.app('model', proto, validator)
+    prot = app.in_protocol
+    doc, dexc, lexc = lib_parse_dict(prot, proto, body)
+    key = ''
+    if dexc is not None:
+        rq = '(mkdreq (Some %s) (LibRaise EException))' % g_exc(dexc, table)
+        LIB_SEEN.append((proto, g_exc(dexc, table), dexc[0], body))
+    elif lexc is not None:
+        rq = '(mkdreq None (LibRaise %s))' % g_exc(lexc, table)
+        LIB_SEEN.append((proto, g_exc(lexc, table), lexc[0], body))
+    else:
+        try:
+            rq = '(mkdreq None (LibOk %s))' % U.g_jv(doc)
+        except (U.Unmodelled, RecursionError):
+            return None
+        if len(rq) > 60000:
+            return None
+        if isinstance(doc, dict) and len(doc) == 1:
+            (k, _), = doc.items()
+            if not isinstance(k, (str, bytes)):
+                key = '%s' % (k,)
+            elif isinstance(k, bytes) and proto != 'msgpack':
+                key = '%s' % (k,)
+    obs = D.drive_server(sv, 'model', proto, validator, body)
+    exp = g_outcome(obs, term, table)
+    if exp is None:
+        return None
+    P = {'json': 'PJson', 'yaml': 'PYaml', 'msgpack': 'PMsgpack'}[proto]
+    t = '(KDict %s %s %s %s %s)' % (P, gbool(validator == 'soft'), rq, gtext(key), exp)
+    return t, '%s validator=%s %r -> %s' % (proto, validator, body[:200], obs.short())
+
+
+LIB_SEEN = []
+
+CASE_PRELUDE = '''
+Inductive kase :=
+| KXml (soft : bool) (rq : xml_request) (exp : outcome)
+| KSoap (ns : text) (soft : bool) (rq : soap_request) (exp : outcome)
+| KDict (P : dproto) (soft : bool) (rq : dict_request) (key : text) (exp : outcome).
+Definition run_kase (k : kase) : outcome :=
+  match k with
+  | KXml soft rq _ => xml_server soft app0 rq
+  | KSoap ns soft rq _ => soap_server ns soft app0 rq
+  | KDict P soft rq key _ => dict_server (fmt_const key) P soft app0 40 rq
+  end.
+Definition kase_ok (k : kase) : bool :=
+  outcome_eqb (run_kase k)
+    (match k with KXml _ _ e => e | KSoap _ _ _ e => e | KDict _ _ _ _ e => e end).
+'''
+
+
+def model_bodies(check, quick):
+    """[(proto, body)] for the modelled application: the structured stream, byte damage, the corpus"""
+    rng = check.rng
+    out = []
+    n = 70 if quick else 900
+    for it in range(n):
+        n_mut = rng.choice([0, 1, 1, 1, 2, 2, 3])
+        for p, b, _ in structured_bodies(rng, U.MODEL_DESC, n_mut):
+            if p in ('http', 'mprpc'):
+                continue
+            out.append((p, b))
+            if rng.random() < .15:
+                out.extend((p, tb) for tb in G.truncations(rng, b, 2))
+                out.append((p, G.corrupt(rng, b)))
+    for p in ('xml', 'soap11', 'soap12', 'json', 'yaml', 'msgpack'):
+        for b in G.CORPUS[p]:
+            if len(b) < 20000:
+                out.append((p, b))
+    return out
+
+
+def correspondence(check, sv):
+    table = coq_class_table()
+    term = U.AppTerm(sv.app('model', 'xml', None))
+    prelude = IMPORTS + 'Open Scope Z_scope.\nDefinition app0 : app :=\n%s.\n%s' % (term.term(), CASE_PRELUDE)
+    check.extra['model_app'] = {'classes': len(term.order), 'registry': len(term.registry), 'methods': len(term.methods)}
+    quick = check.tier == 'quick'
+    cases = {'xml': [], 'soap': [], 'dict': []}
+    skipped = 0
+    seen = set()
+    for p, b in model_bodies(check, quick):
+        for v in D.validators(p):
+            if (p, v, b) in seen:
+                continue
+            seen.add((p, v, b))
+            try:
+                c = xml_case(sv, term, table, p, v, b) if p in D.XML_FAMILY else dict_case(sv, term, table, p, v, b)
+            except RecursionError:
+                c = None
+            if c is None:
+                skipped += 1
+                continue
+            cases['xml' if p == 'xml' else 'soap' if p in D.XML_FAMILY else 'dict'].append(c)
+            check.count(('corr', p, v, b))
+    check.extra['correspondence_skipped_outside_universe'] = skipped
+    # the library assumptions of the theorems, against what the libraries did in this run
+    seen = {}
+    for proto, coq, name, body in LIB_SEEN:
+        seen.setdefault((proto, coq, name), body)
+    outside = [(k, b) for k, b in seen.items() if k[1] not in LIB_RAISES[k[0]]]
+    check.extra['library_exceptions_seen'] = sorted('%s: %s (%s)' % k for k in seen)
+    for (proto, coq, name), body in outside:
+        if proto == 'yaml' and (b'!!timestamp' in body or b'!!bool' in body):
+            continue          # the two PyYAML defects listed as known findings (C10_syntax_yaml_refuted)
+        check.mismatch('library-assumption', '%s raised %s (%s) for %r: outside the set the theorems assume'
+                       % (proto, name, coq, body[:120]))
+    for name, cs in cases.items():
+        lib.correspond(check, 'pipeline_' + name, prelude, 'kase', 'kase_ok', cs, shard=150,
+                       show='run_kase')
+    check.sample({'correspondence': dict((k, len(v)) for k, v in cases.items()),
+                  'example': cases['xml'][0][1] if cases['xml'] else None})
